@@ -193,6 +193,9 @@ def gen_case(rng, index, tier):
         'nested': 'v1/nested' in L.mounts, 'nargs': len(args),
     }
     case['states'] = {'top': L.top_state, 'alt': L.alt_state}
+    if rng.random() < 0.12:
+        # whatever the user's umask: trash directories are private (0700)
+        case['umask'] = rng.choice([0, 0o002, 0o077, 0o027, 0o007])
     return case
 
 
